@@ -1,5 +1,5 @@
 import Mc.Drv.Common
-import Mc.Sync.Composite
+import Mc.Sync.Decorator
 /- Driver side of the sync traces: parsing, replay of the model against the recorded calls. -/
 namespace Mc.Drv
 
@@ -63,6 +63,16 @@ def cfgOfJ (j : J) : Cfg :=
     parentSelector := selectorOfJ (j.opt "parentSelector"),
     finalize := j.getBool "finalize", customize := j.getBool "customize", ssa := j.getBool "ssa",
     fieldPaths := (j.getD "fieldPaths").strList }
+
+def parentResOfJ (j : J) : ParentRes :=
+  { apiVersion := j.getStr "apiVersion", resource := j.getStr "resource", kind := j.getStr "kind",
+    namespaced := j.getBool "namespaced", hasStatus := j.getBool "hasStatus",
+    labelSel := selectorOfJ (j.opt "labelSelector"), annSel := selectorOfJ (j.opt "annotationSelector") }
+
+def dcfgOfJ (j : J) : DCfg :=
+  { name := j.getStr "name", resources := (j.getArr "resources").map parentResOfJ,
+    attachments := (j.getArr "attachments").map childResOfJ,
+    finalize := j.getBool "finalize", customize := j.getBool "customize" }
 
 def cacheOfJ (j : J) : Cache :=
   { parents := j.getArr "parents",
